@@ -2,6 +2,7 @@ package sym
 
 import (
 	"fmt"
+	"unsafe"
 	"go/token"
 	"go/types"
 	"math"
@@ -139,6 +140,31 @@ func init() {
 			in.call(fr, fr.callpos, wr, []value{w.v, data})
 			return tuple{len(symstrOf(str).b), iface{}}
 		},
+		// minimal reflect: ValueOf(x).Len() as used by pkg/slice
+		"reflect.ValueOf": func(fr *frame, a []value) value { return structure{nativeBox{a[0]}, unsafe.Pointer(nil), uintptr(0)} },
+		"(reflect.Value).Len": func(fr *frame, a []value) value {
+			box, ok := a[0].(structure)[0].(nativeBox)
+			if !ok {
+				unsupported("reflect.Value.Len on a value not produced by reflect.ValueOf")
+			}
+			switch x := box.v.(iface).v.(type) {
+			case []value:
+				return len(x)
+			case string:
+				return len(x)
+			case symstr:
+				return len(x.b)
+			case array:
+				return len(x)
+			case *omap:
+				if x == nil {
+					return 0
+				}
+				return x.len()
+			}
+			unsupported("reflect.Value.Len of %T", box.v.(iface).v)
+			return nil
+		},
 		"reflect.TypeOf": func(fr *frame, a []value) value { return iface{t: holeType, v: hole{}} }, // only used for metric labels
 		"os.Hostname": func(fr *frame, a []value) value { return tuple{"verif-host", iface{}} },
 		"os.Getenv":   func(fr *frame, a []value) value { return "" },
@@ -206,7 +232,30 @@ func init() {
 		"strings.Contains":  func(fr *frame, a []value) value { return strings.Contains(concStr(a[0], "strings.Contains"), concStr(a[1], "strings.Contains")) },
 		"strings.ToLower":   func(fr *frame, a []value) value { return strings.ToLower(concStr(a[0], "strings.ToLower")) },
 		"strings.ToUpper":   func(fr *frame, a []value) value { return strings.ToUpper(concStr(a[0], "strings.ToUpper")) },
-		"strings.EqualFold": func(fr *frame, a []value) value { return strings.EqualFold(concStr(a[0], "EqualFold"), concStr(a[1], "EqualFold")) },
+		"strings.EqualFold": func(fr *frame, a []value) value {
+			x, xok := a[0].(string)
+			y, yok := a[1].(string)
+			if xok && yok {
+				return strings.EqualFold(x, y)
+			}
+			// ASCII case folding on (partly) symbolic bytes; non-ASCII folding is outside the model
+			sa, sb := symstrOf(a[0]), symstrOf(a[1])
+			if len(sa.b) != len(sb.b) {
+				return false
+			}
+			in := fr.in
+			c := in.ctx
+			fold := func(v value) *smt.Term {
+				t := in.term(v)
+				isUpper := c.And(c.Cmp("bvule", c.Const(8, 'A'), t), c.Cmp("bvule", t, c.Const(8, 'Z')))
+				return c.Ite(isUpper, c.BV2("bvadd", t, c.Const(8, 32)), t)
+			}
+			var conj []*smt.Term
+			for i := range sa.b {
+				conj = append(conj, c.Eq(fold(sa.b[i]), fold(sb.b[i])))
+			}
+			return mkval(c.And(conj...), types.Bool)
+		},
 		"strings.Index":     func(fr *frame, a []value) value { return strings.Index(concStr(a[0], "strings.Index"), concStr(a[1], "strings.Index")) },
 		"strings.TrimPrefix": func(fr *frame, a []value) value { return strings.TrimPrefix(concStr(a[0], "TrimPrefix"), concStr(a[1], "TrimPrefix")) },
 		"strings.TrimSuffix": func(fr *frame, a []value) value { return strings.TrimSuffix(concStr(a[0], "TrimSuffix"), concStr(a[1], "TrimSuffix")) },
